@@ -774,8 +774,8 @@ async def _drive(loop, case, S):
             ch.sink = lambda pdu, b=b: rx(b, pdu)
             senders.append(ch.write)
             mtu0.append(min(client_l2, server_l2))
-        S['client_l2'] = client_l2
             limits.append({'sdu': server_l2, 'mtu': min(client_l2, server_l2)})
+        S['client_l2'] = client_l2
     conn.encryption = 1 if case['sec'][0] else 0
     conn.authenticated = bool(case['sec'][1])
     S['mtu0'] = mtu0
